@@ -477,7 +477,7 @@ MUTATIONS = collections.OrderedDict([
     ('magff', ('inplace', 'assign')),
     ('activation', ('inplace', 'assign')),
 ])
-PICKLE_KINDS = ('el', 'ion', 'iso', 'isoion', 'struct')
+PICKLE_KINDS = ('el', 'ion', 'iso', 'isoion', 'struct', 'kept')
 # mutations that can only be written against private fields of the atoms (mass and density are read-only
 # properties over _mass / _density / _abundance): optional, skipped on a tree that stores them otherwise
 PRIVATE_FIELD_MUTATIONS = (('mass', 'assign'), ('density', 'assign'))
@@ -963,7 +963,7 @@ class Env(object):
         if k == 'parse0':
             return 'mass' not in have
         if k == 'pickle':
-            return p[2] in ('el', 'ion') or 'mass' in have
+            return p[2] in ('el', 'ion', 'kept') or 'mass' in have
         return False
 
     def violation(self, kind, clause, table, group, msg, symptom='', entries=(), **extra):
@@ -1296,6 +1296,8 @@ class Env(object):
         """(f): a pickled atom of T is restored to T's own object."""
         T, kind = p[1], p[2]
         tb = self.tables[T]
+        if kind == 'kept':
+            return self._pickle_kept_atoms(T)
         atoms = {'el': [tb.Fe, tb[0], tb.Og], 'ion': [tb.Fe.ion[2], tb.O.ion[-2]]}
         if 'mass' in self.inited[T]:
             atoms['iso'] = [tb.Fe[56], tb.D, tb.T, tb.U[238]]
@@ -1323,6 +1325,42 @@ class Env(object):
                                'pickled %s of %s restored to an object of %s' % (atom_label(a) if kind != 'struct' else 'structure', T, sorted(set(own))),
                                symptom='owner:' + ','.join(sorted(set(own))),
                                entries=[(repr(a)[:40], 'restored-owner', ','.join(sorted(set(own))), T)])
+
+    def _pickle_kept_atoms(self, T):
+        """(f) for atoms that outlive the caller's reference to their table: a helper builds a private table,
+        returns some of its atoms (or a formula over them) and lets the table name go out of scope.  The atoms are
+        still atoms of that table, and a pickle round trip restores them to themselves."""
+        import gc
+        import periodictable as pt
+        from periodictable import core
+        self._kept = getattr(self, '_kept', [])
+        name = 'kept-%s-%d' % (T, len(self._kept))
+
+        def helper():
+            tmp = core.PeriodicTable(name)
+            f = pt.formula([(2, tmp.H), (1, tmp.O.ion[-2]), (1, tmp.Fe)])
+            return [tmp.Fe, tmp.Fe.ion[2], tmp[0]], f
+        try:
+            atoms, f = helper()
+        except Exception as exc:
+            self.harness.append('pickle:kept: building the scratch table raised %s: %s' % (type(exc).__name__, exc))
+            return
+        gc.collect()
+        self._kept.append((atoms, f))
+        for a in atoms + [f]:
+            self.counts['pickle_checks'] += 1
+            self.counts['pickle_kept_checks'] += 1
+            try:
+                b = pickle.loads(pickle.dumps(a))
+            except Exception as exc:
+                self.violation('pickle', 'f', T, '-', 'pickle round trip of %r, an atom (formula) of a private table whose '
+                               'name the caller no longer holds, raised %s: %s' % (a, type(exc).__name__, str(exc)[:100]),
+                               symptom='EXC:' + type(exc).__name__)
+                continue
+            same = (b is a) if a is not f else all(x is y for x, y in zip(formula_atoms(b), formula_atoms(a)))
+            if not same:
+                self.violation('pickle', 'f', T, '-', 'pickled %r of a private table whose name the caller no longer holds '
+                               'was restored to another object' % (a,), symptom='owner:another-object')
 
     # -- end of history ----------------------------------------------------
     def finish(self, heap=True):
@@ -1660,7 +1698,7 @@ def random_history(rng, maxlen=16, guard_early=(), guard_mut=(), two_tables=0.4,
             else:
                 m.add('mix:%s:%s' % (T, rng.choice(('weight', 'volume'))))
         else:
-            kinds = PICKLE_KINDS if 'mass' in have else ('el', 'ion')
+            kinds = PICKLE_KINDS if 'mass' in have else ('el', 'ion', 'kept')
             m.add('pickle:%s:%s' % (T, rng.choice(kinds)))
     return m.hist
 
@@ -1727,7 +1765,7 @@ def systematic_histories(thorough=False):
     out.append(('two-table-parse', base + ['new:T2', 'init:T2:mass', 'init:T2:density', 'parse:T1:3', 'parse:T2:3', 'parse:T1:3', 'mix:T2:weight', 'mix:T1:volume']))
     for kind in PICKLE_KINDS:
         out.append(('pickle:%s' % kind, base + ['new:T2', 'init:T2:mass', 'pickle:T1:%s' % kind, 'pickle:T2:%s' % kind]))
-    out.append(('pickle-bare', ['new:T1', 'pickle:T1:el', 'pickle:T1:ion']))
+    out.append(('pickle-bare', ['new:T1', 'pickle:T1:el', 'pickle:T1:ion', 'pickle:T1:kept']))
     if thorough:
         # ordered pairs over {init(T1) g, first public touch of g'} and triples with a second table
         for g1 in LAZY:
